@@ -115,7 +115,13 @@ struct RunResult {
     panic: Option<String>,
     sites: Vec<(&'static str, String)>,
     trace: Vec<String>,
+    /// real-abort cross-check: was the store left behind by the really aborted child process identical (all keys and
+    /// values) to the store of the in-process crash model at the same write?
+    abort_store_equal: Option<bool>,
 }
+
+/// set in the child process of the real-abort cross-check: the hook ends the process with abort() instead of unwinding
+static REAL_ABORT: std::sync::atomic::AtomicBool = std::sync::atomic::AtomicBool::new(false);
 
 fn act_label(a: &Act) -> &'static str {
     match a {
@@ -214,6 +220,12 @@ fn do_act(w: &mut World, net: &mut HonestNet, a: &Act, hook: &mut ForkWatch) -> 
 
 /// run the history; crash before write number `crash_at` (1-based) if given
 fn run_history(h: &History, params: &super::super::chain::ChainParams, ccfg: &super::super::client::ClientCfg, crash_at: Option<u64>) -> RunResult {
+    run_history_x(h, params, ccfg, crash_at, None)
+}
+
+/// `swap_from`: directory of the store a really aborted child process left behind at the same write; at the crash point the
+/// simulated client continues from *that* store
+fn run_history_x(h: &History, params: &super::super::chain::ChainParams, ccfg: &super::super::client::ClientCfg, crash_at: Option<u64>, swap_from: Option<&std::path::Path>) -> RunResult {
     let (now, _) = time_base();
     let counter = Rc::new(RefCell::new((0u64, Vec::<(&'static str, String)>::new(), String::from("open"), String::new())));
     let c2 = counter.clone();
@@ -226,6 +238,9 @@ fn run_history(h: &History, params: &super::super::chain::ChainParams, ccfg: &su
         let during = g.2.clone();
         g.1.push((site, during));
         if Some(g.0) == crash_at {
+            if REAL_ABORT.load(std::sync::atomic::Ordering::SeqCst) {
+                std::process::abort();
+            }
             let k = g.0;
             // which storage operation is interrupted (one backtrace per crash run)
             g.3 = super::super::util::storage_op_from_backtrace();
@@ -233,7 +248,7 @@ fn run_history(h: &History, params: &super::super::chain::ChainParams, ccfg: &su
             std::panic::panic_any(CrashHere(k, site));
         }
     }));
-    let mut res = RunResult { writes: 0, crashed: None, crash_op: String::new(), restart_panic: None, converged: false, rebased_start: false, banned: None, crash_act: None, mismatch: None, stale_matched: false, panic: None, sites: vec![], trace: vec![] };
+    let mut res = RunResult { writes: 0, crashed: None, crash_op: String::new(), restart_panic: None, converged: false, rebased_start: false, banned: None, crash_act: None, mismatch: None, stale_matched: false, panic: None, sites: vec![], trace: vec![], abort_store_equal: None };
     let main = Chain::generate(params.clone(), h.len);
     let mut w = World::new(main, ccfg.clone(), h.seed, now);
     let mut net = HonestNet::new(0);
@@ -280,6 +295,31 @@ fn run_history(h: &History, params: &super::super::chain::ChainParams, ccfg: &su
             res.crash_act = if i == 0 { None } else { Some(i - 1) };
             drop(g);
             crate::verif_hook::clear();
+            if let Some(src) = swap_from {
+                w.client = None; // every handle closed, as after the death of the process
+                let d1 = {
+                    let st = crate::storage::Storage::new(&w.dir);
+                    super::super::client::dump_db(&st)
+                };
+                let d2 = {
+                    let st = crate::storage::Storage::new(src);
+                    super::super::client::dump_db(&st)
+                };
+                res.abort_store_equal = Some(d1 == d2);
+                // carry on from the store of the aborted process
+                if let Ok(rd) = std::fs::read_dir(&w.dir) {
+                    for e in rd.flatten() {
+                        let _ = std::fs::remove_file(e.path());
+                    }
+                }
+                if let Ok(rd) = std::fs::read_dir(src) {
+                    for e in rd.flatten() {
+                        if e.file_name() != "LOCK" && e.path().is_file() {
+                            let _ = std::fs::copy(e.path(), w.dir.join(e.file_name()));
+                        }
+                    }
+                }
+            }
             for attempt in 0..2 {
                 if let Err(p) = w.restart() {
                     res.restart_panic = Some(format!("attempt {}: {} at {}", attempt + 1, p.message, p.location));
@@ -433,6 +473,41 @@ fn run_history(h: &History, params: &super::super::chain::ChainParams, ccfg: &su
     res
 }
 
+/// child process of the real-abort cross-check (VERIF_PROP=C08CHILD): replays history `VERIF_C08_SEED` and really
+/// aborts (SIGABRT, no unwinding, no destructors) immediately before storage write `VERIF_C08_K`
+pub fn run_child() {
+    let seed: u64 = std::env::var("VERIF_C08_SEED").ok().and_then(|s| s.parse().ok()).unwrap_or(0);
+    let k: u64 = std::env::var("VERIF_C08_K").ok().and_then(|s| s.parse().ok()).unwrap_or(0);
+    let (h, params, ccfg) = gen_history(seed);
+    REAL_ABORT.store(true, std::sync::atomic::Ordering::SeqCst);
+    let _ = run_history(&h, &params, &ccfg, Some(k));
+}
+
+/// runs the child; Some(dir) when it died by a signal (the store is in dir), None when it ended normally (write k not reached)
+fn spawn_abort_child(seed: u64, k: u64, tag: u64) -> Option<std::path::PathBuf> {
+    use std::os::unix::process::ExitStatusExt;
+    let dir = super::super::client::scratch_root().join(format!("abortchild-{}-{}", tag, k));
+    let exe = std::env::current_exe().ok()?;
+    let st = std::process::Command::new(exe)
+        .args(["--exact", "vh::verif_main", "--nocapture", "--test-threads", "1"])
+        .env("VERIF_PROP", "C08CHILD")
+        .env("VERIF_C08_SEED", seed.to_string())
+        .env("VERIF_C08_K", k.to_string())
+        .env("VERIF_FIXED_DIR", &dir)
+        .env("VERIF_OUT", dir.with_extension("out"))
+        .stdout(std::process::Stdio::null())
+        .stderr(std::process::Stdio::null())
+        .status()
+        .ok()?;
+    let _ = std::fs::remove_file(dir.with_extension("out"));
+    if st.signal().is_some() {
+        Some(dir)
+    } else {
+        let _ = std::fs::remove_dir_all(&dir);
+        None
+    }
+}
+
 pub fn run(cfg: &RunCfg, out: &Out) {
     for k in 0..cfg.budget {
         if out.time_up() {
@@ -455,12 +530,43 @@ pub fn run(cfg: &RunCfg, out: &Out) {
         out.count("histories", 1);
         out.max("writes_per_history_max", base.writes);
         let w_total = base.writes;
-        for kk in 1..=w_total {
+        // crash points: every write once with the in-process crash model, then a sample of them again with a child process
+        // that really aborts at that write and whose store the recovery continues from (validation of the crash model)
+        let mut arng = super::super::rng::Rng::new(seed ^ 0xab0a7);
+        let n_abort = if cfg.tier == "thorough" { 8 } else { 3 };
+        let mut points: Vec<(u64, bool)> = (1..=w_total).map(|x| (x, false)).collect();
+        for _ in 0..n_abort.min(w_total) {
+            points.push((arng.range(1, w_total), true));
+        }
+        for (kk, real_abort) in points {
             if out.time_up() {
                 out.note("time cap reached inside a history: remaining crash points not run");
                 break;
             }
-            let r = run_history(&h, &params, &ccfg, Some(kk));
+            let child_dir = if real_abort {
+                match spawn_abort_child(seed, kk, k) {
+                    Some(d) => Some(d),
+                    None => {
+                        out.count("real_abort_child_did_not_reach_the_write", 1);
+                        continue;
+                    }
+                }
+            } else {
+                None
+            };
+            let r = run_history_x(&h, &params, &ccfg, Some(kk), child_dir.as_deref());
+            if let Some(d) = &child_dir {
+                let _ = std::fs::remove_dir_all(d);
+                out.count("real_abort_points", 1);
+                match r.abort_store_equal {
+                    Some(true) => out.count("real_abort_store_identical_to_crash_model", 1),
+                    Some(false) => {
+                        out.count("real_abort_store_differs_from_crash_model", 1);
+                        out.note(&format!("real abort before write {} of history {}: store differs from the in-process crash model (recovery judged on the aborted store)", kk, seed));
+                    }
+                    None => out.count("real_abort_not_reached_in_process", 1),
+                }
+            }
             let (site, during) = match &r.crashed {
                 Some((_, s, d)) => (*s, d.clone()),
                 None => {
@@ -537,7 +643,7 @@ pub fn run(cfg: &RunCfg, out: &Out) {
                 "no-fork".to_string()
             };
             let outcome = if r.restart_panic.is_some() { "restart-panic" } else if r.panic.is_some() { "panic-after-recovery" } else if r.mismatch.is_some() { "answers-differ" } else { "recovered" };
-            out.cell(&format!("{}:{}|{}|{}", site, r.crash_op, during, outcome));
+            out.cell(&format!("{}:{}|{}|{}{}", site, r.crash_op, during, outcome, if real_abort { "|real-abort" } else { "" }));
             let detail = json!({"history": h.desc, "crash_before_write": kk, "of": w_total, "site": site, "storage_operation": r.crash_op, "during": during, "restart_panic": r.restart_panic, "panic": r.panic, "mismatch": r.mismatch, "trace": r.trace,
                 "writes_before": r.sites.iter().rev().take(6).map(|(s, d)| format!("{}@{}", s, d)).collect::<Vec<_>>()});
             if let Some(_) = &r.restart_panic {
